@@ -129,7 +129,11 @@ func flight3Parse(
 		state.RemoteRandom = serverHelloMsg.Random
 		cfg.Log.Tracef("[handshake] use cipher suite: %s", selectedCipherSuite.String())
 
-		if len(serverHelloMsg.SessionID) > 0 && bytes.Equal(state.SessionID, serverHelloMsg.SessionID) {
+		// A session offered for resumption carries its master secret. Without one, an equal
+		// session ID only means this ServerHello was already seen: it started a full handshake
+		// (the ID was stored above) and the rest of the flight had not arrived yet.
+		if len(serverHelloMsg.SessionID) > 0 && bytes.Equal(state.SessionID, serverHelloMsg.SessionID) &&
+			len(state.MasterSecret) != 0 {
 			next, dtlsAlert, err := handleResumption(ctx, conn, state, cache, cfg)
 			if next != 0 && err == nil {
 				state.CommitNegotiatedExtensions(decision)
